@@ -78,7 +78,7 @@ func errorsIs(err, target error) bool {
 }
 
 //verif:harness C10 quick n=0..8
-//verif:harness C10 thorough n=9..13
+//verif:harness C10 thorough n=9..11
 func H_C10_parse(n int) {
 	in := vBytes("in", n)
 	r := Rule(vU8("rule") & 1)
@@ -108,7 +108,7 @@ func H_C10_parse(n int) {
 // the value does not depend on letter case: flipping bit 5 of any subset of letters keeps the result
 //
 //verif:harness C10 quick n=1..6
-//verif:harness C10 thorough n=7..10
+//verif:harness C10 thorough n=7..8
 func H_C10_caseInvariant(n int) {
 	in := vBytes("in", n)
 	flip := vU16("flip")
